@@ -338,7 +338,7 @@ P("C18",
 
 P("C08",
   variants=["san", "tsan"],
-  rc={"quick": (10, 300, 100, 8), "thorough": (10, 4000, 100, 8)},
+  rc={"quick": (10, 200, 100, 8), "thorough": (10, 4000, 100, 8)},
   budget={"quick": 150, "thorough": 1800},
   case_timeout=200,
   rule=CIRCUIT_RULE + GLOBAL_DOMAIN + "Stage in {placeGlobal (5/9), legalize, placeDetailed}; noise > 0 in two thirds of the "
